@@ -31,6 +31,8 @@ class FixedProvider(object):
         self.visits = {}
         self.completions = 0
         self.paused = False
+        self.delayed = set()
+        self.use_delayed = True
 
     def play(self, op):
         r = self.imp.play(op)
@@ -65,11 +67,16 @@ class FixedProvider(object):
                     continue
                 for a in o["actions"]:
                     key = (o["id"], o["route"], a["item_id"])
-                    opd = {"op": "report", "task": key[0], "route": key[1], "status": "running", "result": None}
+                    # an action with a delay is reported `delayed` first and `running` only when
+                    # it is about to complete
+                    first = "delayed" if (o["delay"] and key[2] is None and self.use_delayed) else "running"
+                    opd = {"op": "report", "task": key[0], "route": key[1], "status": first, "result": None}
                     if key[2] is not None:
                         opd["item"] = key[2]
                         opd["acc"] = []
                     self.play(opd)
+                    if first == "delayed":
+                        self.delayed.add(key)
                     inflight.append(key)
             if self.pause_at is not None and self.completions == self.pause_at and not self.paused \
                     and self.status() in ("running", "resuming"):
@@ -78,6 +85,9 @@ class FixedProvider(object):
             if inflight:
                 i = 0 if self.fifo else self.order.randrange(len(inflight))
                 key = inflight.pop(i)
+                if key in self.delayed:
+                    self.delayed.discard(key)
+                    self.play({"op": "report", "task": key[0], "route": key[1], "status": "running", "result": None})
                 v = self.visits.get(key, 0)
                 self.visits[key] = v + 1
                 st, res = self.outcome(key[0], v if key[2] is None else (v, key[2]))
